@@ -70,6 +70,7 @@ extern void cfg_lexer_include_unwind(void);
 
 static int cfg_parse_internal(cfg_t *cfg, int level, int force_state, cfg_opt_t *force_opt);
 static void cfg_free_opt_array(cfg_opt_t *opts);
+static int cfg_free_context(cfg_t *cfg);
 static int cfg_print_pff_indent(cfg_t *cfg, FILE *fp,
 				cfg_print_filter_func_t fb_pff, int indent);
 
@@ -1104,7 +1105,7 @@ DLLIMPORT cfg_value_t *cfg_setopt(cfg_t *cfg, cfg_opt_t *opt, const char *value)
 			created = 1;
 			if (val->section) {
 				val->section->path = NULL; /* Global search path */
-				cfg_free(val->section);
+				cfg_free_context(val->section);
 			}
 			val->section = calloc(1, sizeof(cfg_t));
 			if (!val->section) {
@@ -1156,7 +1157,7 @@ DLLIMPORT cfg_value_t *cfg_setopt(cfg_t *cfg, cfg_opt_t *opt, const char *value)
 		}
 		/* every new section gets its defaults, also a single one re-created after cfg_rmsec() */
 		if (created && cfg_init_defaults(val->section) != CFG_SUCCESS) {
-			cfg_free(val->section);
+			cfg_free_context(val->section);
 			cfg_dropval(opt, val);
 			return NULL;
 		}
@@ -2077,7 +2078,7 @@ DLLIMPORT int cfg_free_value(cfg_opt_t *opt)
 				free((void *)opt->values[i]->string);
 			} else if (opt->type == CFGT_SEC) {
 				opt->values[i]->section->path = NULL; /* Global search path */
-				cfg_free(opt->values[i]->section);
+				cfg_free_context(opt->values[i]->section);
 			} else if (opt->type == CFGT_PTR && opt->freecb && opt->values[i]->ptr) {
 				(opt->freecb) (opt->values[i]->ptr);
 			}
@@ -2121,10 +2122,10 @@ static int cfg_free_searchpath(cfg_searchpath_t *p)
 	return CFG_SUCCESS;
 }
 
-DLLIMPORT int cfg_free(cfg_t *cfg)
+/* Releases a context or a section instance; the scanner is left alone */
+static int cfg_free_context(cfg_t *cfg)
 {
 	int i;
-	int isroot = 0;
 
 	if (!cfg) {
 		errno = EINVAL;
@@ -2140,16 +2141,34 @@ DLLIMPORT int cfg_free(cfg_t *cfg)
 	cfg_free_opt_array(cfg->opts);
 	cfg_free_searchpath(cfg->path);
 
-	if (cfg->name) {
-		isroot = !strcmp(cfg->name, "root");
+	if (cfg->name)
 		free(cfg->name);
-	}
 	if (cfg->title)
 		free(cfg->title);
 	if (cfg->filename)
 		free(cfg->filename);
 
 	free(cfg);
+
+	return CFG_SUCCESS;
+}
+
+DLLIMPORT int cfg_free(cfg_t *cfg)
+{
+	int isroot;
+
+	if (!cfg) {
+		errno = EINVAL;
+		return CFG_FAIL;
+	}
+
+	/*
+	 * Only the top-level context gives up the scanner.  A section that
+	 * happens to be called "root" is released by cfg_free_context(), also
+	 * in the middle of a parse, when the scanner must stay as it is.
+	 */
+	isroot = cfg->name && !strcmp(cfg->name, "root");
+	cfg_free_context(cfg);
 	if (isroot)
 		cfg_yylex_destroy();
 
@@ -2503,7 +2522,7 @@ DLLIMPORT int cfg_opt_rmnsec(cfg_opt_t *opt, unsigned int index)
 	--opt->nvalues;
 
 	val->section->path = NULL; /* Global search path */
-	cfg_free(val->section);
+	cfg_free_context(val->section);
 	free(val);
 
 	return CFG_SUCCESS;
